@@ -89,7 +89,7 @@ def monitor(cfg, devtab, consts, word, tgts, res):
 
 
 def run(ctx, V):
-    proofs_ok = vlib.proof_gate(ctx, V)
+    proofs_ok = vlib.proof_gate(ctx, V, extract=["Extract/ExEnqueue.vo"])
     consts = pmgen.load_genconsts(ctx.coq)
     for k, v in pmgen.INDEX.items():
         if consts.get(k) != v:
